@@ -1,7 +1,7 @@
 #!/bin/sh
 # tools/verify_seeded.sh <dir with patch.diff demo.py> : confirms a seeded change in a scratch worktree of /repo
 # (demo passes on the clean tree, fails with the patch, full suite still 395 passed). Writes <dir>/verify.log
-D="$1"
+D="$(cd "$1" && pwd)"
 ID=$(basename "$D")
 WT=/tmp/vs_$ID
 LOG="$D/verify.log"
